@@ -1,14 +1,19 @@
 import Okane.Drv.IOUtil
 import Okane.Model.Diag
+import Okane.Model.ParseSpans
 /-!
 Driver for C14.  Input lines (positions are byte offsets taken from the implementation's own error values):
   `<id> bk <enc file text> <a>..<b> <kind> <spans>`   book-keeping error on the entry with span a..b of that file;
         kind ∈ undeducible|assertion|zeroAmountWithExchange|zeroExchangeRate|exchangeWithAmountCommodity|other,
         spans = tracked spans `a..b;c..d` in the order the error carries them, or `-`
   `<id> syn <enc file text> <startPos> <errPos>`       parse error
+  `<id> spans <enc file text>`                         the `Tracking` parser model (`Model/ParseSpans.lean`) on the text
 Output:
   bk : `<id> ls=<line_start> len=<|text|> anns=<a..b;..> lines=<line of each annotation start;..> last=<line of the entry end> text=<enc>`
   syn: `<id> ls=<line_start> span=<a>..<b> len=<|input|> line=<line shown for the error>`
+  spans: `<id> end=done|err:<line_start>:<a>..<b> entries=<s>..<t>:<label>=<a>..<b>,..|<s>..<t>:-|..` — per delivered entry
+        its `ParsedContext` span and its tracked spans in `{:?}` order, labelled a(ccount) v(alue = amount) c(ost) l(ot price)
+        b(alance) p(osting)
   or `<id> panic:<site>` / `<id> fuelOut`
 -/
 namespace Okane.Drv.C14
@@ -49,6 +54,35 @@ def showOutcome {α} (id : String) (o : Outcome Unit α) (f : α → String) : S
   | .panic s => s!"{id} panic:{Sexp.encode s}"
   | .fuelOut => s!"{id} fuelOut"
 
+open Okane.ParseSpans in
+/-- labels parallel to `TPosting.spans` / `postSpans` / `TEntry.spans` -/
+def spanLabels : TEntry → List String
+  | .other _ => []
+  | .txn t => t.posts.flatMap fun p =>
+      ["a"] ++ (match p.value.amount with
+        | none => []
+        | some a => ["v"] ++ (if a.cost.isSome then ["c"] else []) ++ (if a.lot.price.isSome then ["l"] else []))
+      ++ (if p.value.balance.isSome then ["b"] else []) ++ ["p"]
+
+open Okane.ParseSpans in
+def showSpans (text : List Char) : String :=
+  let total := Okane.Comb.utf8Len text
+  let (es, en) := parseLedgerRunT text
+  let one (x : ParsedT) : String :=
+    let rs := x.trackedRanges total
+    let ls := spanLabels x.entry
+    let body :=
+      if rs.isEmpty then "-"
+      else if ls.length != rs.length then "label-mismatch"
+      else ",".intercalate ((ls.zip rs).map fun (l, (a, b)) => s!"{l}={a}..{b}")
+    s!"{x.start}..{x.stop}:{body}"
+  let ending := match en with
+    | .done => "done"
+    | .error e => s!"err:{e.lineStart}:{e.offset}..{e.spanEnd}"
+    | .panic site => s!"panic:{Sexp.encode site}"
+    | .fuelOut => "fuelOut"
+  s!"end={ending} entries={if es.isEmpty then "-" else "|".intercalate (es.map one)}"
+
 def step (line : String) : String :=
   match words line with
   | [id, "bk", text, span, kind, spans] =>
@@ -70,6 +104,10 @@ def step (line : String) : String :=
       showOutcome id (parseErrorNew (parseErrorFuel bytes) bytes startPos errPos) fun pe =>
         s!"{id} ls={pe.lineStart} span={pe.errorSpan.start}..{pe.errorSpan.stop} len={pe.input.length} line={snippetLine pe.lineStart pe.input pe.errorSpan.start}"
     | _, _, _ => s!"{id} bad-case"
+  | [id, "spans", text] =>
+    match Sexp.decode text with
+    | some t => s!"{id} {showSpans t.toList}"
+    | none => s!"{id} bad-case"
   | _ => "bad-case"
 
 def main (_args : List String) : IO Unit := forEachLine step
